@@ -18,6 +18,14 @@ class _Return(Exception):
         self.value = value
 
 
+class _Break(Exception):
+    pass
+
+
+class _Continue(Exception):
+    pass
+
+
 class Evaluator:
     def __init__(self, func_node, env: dict, method_table=None, max_steps=2000):
         self.f = func_node
@@ -57,6 +65,24 @@ class Evaluator:
                 self.block(st.finalbody)
             elif isinstance(st, ast.Raise):
                 raise _Return(("raise", unparse(st.exc)[:40] if st.exc is not None else ""))
+            elif isinstance(st, ast.For) and isinstance(st.target, ast.Name) and isinstance(st.iter, (ast.Tuple, ast.List)):
+                # a loop over a literal sequence: finitely many iterations, evaluated in order
+                broke = False
+                for item in st.iter.elts:
+                    self.env[st.target.id] = self.ev(item)
+                    try:
+                        self.block(st.body)
+                    except _Break:
+                        broke = True
+                        break
+                    except _Continue:
+                        continue
+                if not broke:
+                    self.block(st.orelse)
+            elif isinstance(st, ast.Break):
+                raise _Break()
+            elif isinstance(st, ast.Continue):
+                raise _Continue()
             else:
                 raise AnalysisError(f"evaluator: unsupported statement `{unparse(st)[:60]}`")
 
